@@ -64,6 +64,7 @@ KBFlaws(m, aud, nonce, ledger, keyFam, jwks) ==
           \cup (IF Has(m.kb.pl, "sd_hash") /\ m.kb.pl.f["sd_hash"] = JStr(m.sdh) THEN {} ELSE {"sdh"})
 KBOK(m, aud, nonce, ledger, keyFam, jwks) == KBFlaws(m, aud, nonce, ledger, keyFam, jwks) = {}
 
+RegisteredFree(pl) == Has(pl, "aud") \/ (Has(pl, "sub") /\ pl.f["sub"].t # "s")
 \* The specified verifier.  aud / nonce are JStr(..) or NONE.  Result:
 \*   [v |-> "reject", why]           the draft / the property require rejection (stage `why`)
 \*   [v |-> "ok"|"free", claims]     acceptance is allowed and, if it happens, must return `claims`
@@ -76,7 +77,11 @@ SpecVerify(m, rk, aud, nonce, t0, t1, ledger, keyFam, jwks) ==
   ELSE LET c == Claims(m) IN
        IF c = ERR THEN [v |-> "reject", why |-> "unpack"]
        ELSE IF aud # NONE /\ ~KBOK(m, aud, nonce, ledger, keyFam, jwks) THEN [v |-> "reject", why |-> "kb", flaws |-> KBFlaws(m, aud, nonce, ledger, keyFam, jwks)]
-       ELSE [v |-> IF TimeOf(m, t0, t1) = "accept" THEN "ok" ELSE "free", claims |-> c]
+       \* a VISIBLE audience restriction on the credential itself: RFC 7519 4.1.3 obliges a verifier that does not
+       \* identify itself with one of its values to reject; the API cannot say who the verifier is, so acceptance is
+       \* not demanded (and rejection not asserted) - but claims returned must still be exactly `c`
+       \* Likewise a visible `sub` that is not a string is not a valid registered claim (RFC 7519 4.1.2): free.
+       ELSE [v |-> IF TimeOf(m, t0, t1) = "accept" /\ ~RegisteredFree(m.jwt.pl) THEN "ok" ELSE "free", claims |-> c]
 
 (***************************************************************************)
 (* Relational clauses for the issuer (C05, C12, C13) over a produced       *)
